@@ -217,6 +217,10 @@ impl Rebuildable for Declaration
 			{
 				let mut buffer = String::new();
 				write!(&mut buffer, "{}", indentation)?;
+				if flags.contains(DeclarationFlag::Public)
+				{
+					write!(&mut buffer, "pub ")?;
+				}
 				if flags.contains(DeclarationFlag::External)
 				{
 					write!(&mut buffer, "extern ")?;
